@@ -81,7 +81,7 @@ def configs(tier):
                         continue
                     if alg == "nn_parafac" and norm and len(shp) == 3:
                         continue  # measured: 10 min and still `unknown` (merged clip terms under the column norms): outside the claim
-                    add("cp_exits", alg=alg, shape=shp, R=R, norm=norm, crit=crit, K=2 if alg == "nn_parafac" else 3, init="user", mode="merge" if alg == "nn_parafac" else "fork")
+                    add("cp_exits", alg=alg, shape=shp, R=R, norm=norm, crit=crit, K=2 if (alg == "nn_parafac" or q) else 3, init="user", mode="merge" if alg == "nn_parafac" else "fork")  # quick: 2 sweeps already reach both exits
         md = "merge" if alg == "nn_parafac" else "fork"
         add("cp_exits", alg=alg, shape=(2, 2, 2), R=1, norm=1, crit="abs_rec_error", K=0, init="svd", mode=md)
         add("cp_exits", alg=alg, shape=(2, 2, 2), R=2, norm=1, crit="abs_rec_error", K=1, init="random", mode=md)
@@ -99,7 +99,7 @@ def configs(tier):
     for alg in ("nn_tucker", "nn_tucker_hals"):
         for shp, R in [((2, 2), 2)] + ([] if q else [((2, 2), 1), ((2, 2, 2), 1)]):  # (rank 1 on a matrix keeps unit norms by coincidence)
             for norm in (0, 1):
-                for tolk in ("sym", "huge") if norm else ("sym",):
+                for tolk in (("huge",) if (q and alg == "nn_tucker") else ("sym", "huge")) if norm else ("sym",):  # (nn_tucker with a symbolic tol: 70-290 s, thorough only)
                     # tol "huge" (1e6): the convergence exit is taken at the first opportunity on every input, so a violation found on
                     # that exit replays on any concrete data (with a symbolic tol the replay rarely follows the stubbed run's exit)
                     add("tucker_nn", alg=alg, shape=shp, R=R, norm=norm, tol=tolk, K=3, mode="fork" if alg == "nn_tucker_hals" else "merge")
@@ -108,8 +108,9 @@ def configs(tier):
     add("more", alg="tr_als", shape=(2, 3, 2), rank=[1, 2, 1, 1], mode="merge")
     add("more", alg="constrained", shape=(2, 2, 2), rank=2, mode="merge")
     add("more", alg="randomised", shape=(2, 2), rank=2, mode="fork")
-    add("more", alg="cmtf", shape=(2, 2, 2), rank=2, norm=1, mode="fork")
-    add("more", alg="cmtf", shape=(2, 2, 2), rank=1, norm=0, mode="fork")
+    add("more", alg="cmtf", shape=(2, 2, 2), rank=1 if q else 2, norm=1, mode="fork")
+    if not q:
+        add("more", alg="cmtf", shape=(2, 2, 2), rank=1, norm=0, mode="fork")
     for shp, rank, mode in [((2, 2, 2), 1, 0), ((2, 2, 2), [1, 2, 1, 1], 0), ((4, 2, 2), [2, 2, 1, 2], 0), ((2, 4, 2), [1, 2, 2, 1], 1), ((2, 2, 4), [2, 1, 2, 2], 2), ((2, 2, 2), 2, 0)]:
         add("tr", shape=shp, rank=rank, mode_=mode)
     for rows, J, R in [((2, 2), 2, 1), ((2, 3), 2, 1), ((2, 2), 2, 2)] + ([] if q else [((3, 2), 3, 2)]):
